@@ -1038,6 +1038,7 @@ class mulgrid(object):
                     del col.node[i[3]]
                     n3.column.remove(col)
                     col.centre = col.centroid
+                    col.get_area()
                     self.add_column(col2)
                     self.set_column_num_layers(col2)
                     # connections moved to col2 are now keyed by its name:
